@@ -1121,8 +1121,9 @@ lydxml_subtree_r(struct lyd_xml_ctx *lydctx, struct lyd_node *parent, struct lyd
     if (r) {
         rc = r;
         if ((r != LY_EVALID) || !(lydctx->val_opts & LYD_VALIDATE_MULTI_ERROR) ||
-                (ly_err_last(ctx)->vecode == LYVE_SYNTAX)) {
-            /* fatal error, the node kept for the multi-error validation is not going to be inserted */
+                (ly_err_last(ctx)->vecode == LYVE_SYNTAX) || (xmlctx->status != LYXML_ELEM_CLOSE)) {
+            /* fatal error (also when the XML parser was not left at the end of the element, e.g. by an error in the
+             * attributes of a descendant), the node kept for the multi-error validation is not going to be inserted */
             lyd_free_tree(node);
             goto cleanup;
         }
